@@ -760,10 +760,20 @@ bool parse(const std::string& format, const std::string& input,
         week_num = -1;
         continue;
       case 'd':
-      case 'e':
         data = ParseInt(data, 2, 1, 31, &tm.tm_mday);
         week_num = -1;
         continue;
+      case 'e': {
+        // format() renders %e space padded (" 1" .. " 9"), so accept that.
+        int width = 2;
+        if (*data == ' ') {
+          ++data;
+          --width;
+        }
+        data = ParseInt(data, width, 1, 31, &tm.tm_mday);
+        week_num = -1;
+        continue;
+      }
       case 'U':
         data = ParseInt(data, 0, 0, 53, &week_num);
         week_start = weekday::sunday;
